@@ -3,7 +3,9 @@ use quote::{format_ident, quote, ToTokens};
 use syn::parse_quote;
 use syn::{Data, DeriveInput, Fields};
 
-use crate::helpers::{non_enum_error, strum_discriminants_passthrough_error, HasTypeProperties};
+use crate::helpers::{
+    non_enum_error, strum_discriminants_passthrough_error, with_visible_groups, HasTypeProperties,
+};
 
 /// Attributes to copy from the main enum's variants to the discriminant enum's variants.
 ///
@@ -58,7 +60,8 @@ pub fn enum_discriminants_inner(ast: &DeriveInput) -> syn::Result<TokenStream> {
         let discriminant = variant
             .discriminant
             .as_ref()
-            .map(|(_, expr)| quote!( = #expr));
+            .map(|(_, expr)| with_visible_groups(expr))
+            .map(|expr| quote!( = #expr));
 
         // Don't copy across the "strum" meta attribute. Only passthrough the whitelisted
         // attributes and proxy `#[strum_discriminants(...)]` attributes
